@@ -54,7 +54,17 @@ NODE_CLASSES = {"Node": Node, "EqNode": nodes.EqNode, "FalsyNode": nodes.FalsyNo
 
 # names that are not plain strings, or whose text needs care: equal-but-different numbers, str subclasses with their own
 # __str__, text that cannot be encoded (lone surrogates, as produced by the 'surrogateescape' handler for file names)
-EXOTIC_NAMES = [{"float": "0.0"}, {"float": "-0.0"}, {"dec": "1.0"}, {"dec": "1.00"}, {"bool": True}, {"int": 1}, {"tag": 'q"x'}, {"tag": "plain"}, "plain", "caf\udce9", "caf\udce8", "caf?", {"float": "1e+22"}, {"none": 1}, {"winpath": 'C:\\data\\q"x'}, {"list": ["it's", 'a"b', "c\\d"]}, {"bytes": "plain"}, {"bytes": "caf\u00e9"}, {"bytes": "caf\u00e8"}, {"bytearray": "plainer"}]
+EXOTIC_NAMES = [{"float": "0.0"}, {"float": "-0.0"}, {"dec": "1.0"}, {"dec": "1.00"}, {"bool": True}, {"int": 1}, {"tag": 'q"x'}, {"tag": "plain"}, "plain", "caf\udce9", "caf\udce8", "caf?", {"float": "1e+22"}, {"none": 1}, {"winpath": 'C:\\data\\q"x'}, {"list": ["it's", 'a"b', "c\\d"]}, {"inch": "6"}, {"inch": "back\\"}, {"bytes": "plain"}, {"bytes": "caf\u00e9"}, {"bytes": "caf\u00e8"}, {"bytearray": "plainer"}]
+
+
+class InchName(str):
+    """A str subclass whose text form ADDS a character that needs escaping (6 -> 6"): what is written is str(name), escaped."""
+
+    def __str__(self):
+        return str.__str__(self) + '"'
+
+    def __repr__(self):
+        return "InchName(%s)" % str.__repr__(self)
 
 
 def decode_name(spec):
@@ -76,6 +86,8 @@ def decode_name(spec):
         return pathlib.PureWindowsPath(spec["winpath"])
     if "list" in spec:
         return list(spec["list"])
+    if "inch" in spec:
+        return InchName(spec["inch"])
     if "bytes" in spec:
         return spec["bytes"].encode("latin-1")
     if "bytearray" in spec:
@@ -778,7 +790,7 @@ def plan(tier, seed):
     examples = 150 if tier == "quick" else 1200
     tasks = [{"engine": "enum", "max_nodes": max_nodes, "index": i, "count": nshards * 2} for i in range(nshards * 2)]
     tasks += [{"engine": "hyp", "examples": examples, "seed": seed * 1000 + i} for i in range(nshards)]
-    tasks += [{"engine": "round", "totals": [t]} for t in ((256, 1024, 2048, 4096, 8192) if tier == "quick" else (128, 256, 512, 1000, 1024, 2048, 4096, 8192, 10000, 16384))]
+    tasks += [{"engine": "round", "totals": [t]} for t in ((256, 1000, 1024, 2000, 2048, 3000, 4096, 8192) if tier == "quick" else (100, 128, 256, 500, 512, 1000, 1024, 2000, 2048, 3000, 4096, 5000, 8192, 10000, 16384))]
     tasks += [{"engine": "tall", "factor": f} for f in ((0.6,) if tier == "quick" else (0.3, 0.6, 0.8))]
     tasks += [{"engine": "gc"}, {"engine": "locale", "which": ["dot", "uniquedot"]}, {"engine": "fraction", "max_nodes": 4 if tier == "quick" else 5}]
     tasks += [{"engine": "wide", "widths": [w]} for w in ((300, 700, 4400) if tier == "quick" else (257, 300, 700, 1100, 2500, 4400, 9000))]
